@@ -909,7 +909,19 @@ class Interp:
             if name == "keys":
                 return V("list", elem=raw(b.deps, deg={}))
             if name == "items":
-                return V("list", elem=V("list", elem=b.elem))
+                # key and value both carry what decided the keys (grouping by a computed key)
+                return V("list", elem=V("list", elem=add_deps(b.elem, b.deps) if b.elem is not None else raw(b.deps, deg={})))
+            if name == "setdefault" and args:
+                dflt = args[1] if len(args) > 1 else V("none")
+                b.deps = b.deps | args[0].deps
+                if b.elem is None:
+                    b.elem = dflt
+                elif b.elem.k == "list" and dflt.k == "list":
+                    if dflt.elem is not None:
+                        b.elem.elem = join([b.elem.elem, dflt.elem]) if b.elem.elem is not None else dflt.elem
+                else:
+                    b.elem = join([b.elem, dflt])
+                return b.elem
             if name == "get":
                 return add_deps(b.elem, alld) if b.elem is not None else raw(alld)
             if name == "update":
